@@ -1,5 +1,6 @@
 import TlsModel.Proto
 import TlsModel.Resume
+import TlsModel.Ticket
 /-
   Driver for C13 (stateful): one `World` (client session objects, server session objects, caches,
   sealed tickets, connection log) stepped by the harness' history.
@@ -186,6 +187,26 @@ def handle (d : DState) : List String → DState × Option String
       | some c => (d, some s!"cobj={optNatOut c.cobj} sobj={optNatOut c.sobj} from={optNatOut c.resumedFrom}")
       | none => (d, some "nosuch")
     | none => (d, none)
+  | ["tpw", ver, ms, maj, min, suite, nonce, ct, chain, etm, ems, sn] =>
+    -- SessionTicketPayload.write of the given fields
+    (d, do
+      let p : Tls.Ticket.TicketPayload := {
+        version := (← ver.toNat?), masterSecret := (← ofHex ms), protoMajor := (← maj.toNat?),
+        protoMinor := (← min.toNat?), suite := (← suite.toNat?), nonce := (← ofHex nonce),
+        creationTime := (← ct.toNat?), certChain := (← ofHex chain), etm := (← boolOf etm),
+        ems := (← boolOf ems), serverName := (← ofHex sn) }
+      some (hexOut (Tls.Ticket.writePayload p)))
+  | ["tpc", hasChain, etm, ems, sn] =>
+    -- version SessionTicketPayload.create chooses
+    (d, do
+      let p := Tls.Ticket.create [] 3 3 0 0 [] (if (← boolOf hasChain) then some [] else none)
+        (← boolOf etm) (← boolOf ems) (← ofHex sn)
+      some (toString p.version))
+  | ["tpp", b] =>
+    (d, do
+      match Tls.Ticket.parsePayload (← ofHex b) with
+      | none => some "none"
+      | some p => some s!"{p.version} {hexOut p.masterSecret} {p.protoMajor} {p.protoMinor} {p.suite} {hexOut p.nonce} {p.creationTime} {hexOut p.certChain} {b01 p.etm} {b01 p.ems} {hexOut p.serverName}")
   | "hs" :: t =>
     match parseHs d t with
     | some a =>
